@@ -12,7 +12,7 @@ theorem allComments_firstReal : ∀ b : CT, allComments b = true ↔ firstReal b
   | .nil => by simp [allComments, firstReal]
   | .leaf .comment rest => by simpa [allComments, firstReal] using allComments_firstReal rest
   | .leaf (.stmt _ _ _) _ => by simp [allComments, firstReal]
-  | .leaf (.block _ _) _ => by simp [allComments, firstReal]
+  | .leaf (.block _ _ _) _ => by simp [allComments, firstReal]
   | .leaf (.silent _ _) _ => by simp [allComments, firstReal]
   | .ctl _ _ _ _ => by simp [allComments, firstReal]
 
@@ -28,7 +28,7 @@ theorem search_kinds : ∀ (b : CT) (t : List CKind),
   | .leaf .comment rest, t => by
     simpa [kinds, Leaf.kinds, firstReal, searchForControlLine] using search_kinds rest t
   | .leaf (.stmt _ _ _) _, t => by simp [kinds, Leaf.kinds, firstReal, searchForControlLine]
-  | .leaf (.block _ _) _, t => by simp [kinds, Leaf.kinds, firstReal, searchForControlLine]
+  | .leaf (.block _ _ _) _, t => by simp [kinds, Leaf.kinds, firstReal, searchForControlLine]
   | .leaf (.silent _ _) _, t => by simp [kinds, Leaf.kinds, firstReal, searchForControlLine]
   | .ctl _ _ _ _, t => by simp [kinds, firstReal, searchForControlLine]
 
@@ -39,7 +39,7 @@ theorem all_kinds_comments : ∀ (b : CT), allComments b = true → ∀ (p : CKi
     simp only [allComments] at h
     simp [kinds, Leaf.kinds, hp, all_kinds_comments rest h p hp]
   | .leaf (.stmt _ _ _) _, h, _, _ => by simp [allComments] at h
-  | .leaf (.block _ _) _, h, _, _ => by simp [allComments] at h
+  | .leaf (.block _ _ _) _, h, _, _ => by simp [allComments] at h
   | .leaf (.silent _ _) _, h, _, _ => by simp [allComments] at h
   | .ctl _ _ _ _, h, _, _ => by simp [allComments] at h
 
@@ -50,7 +50,7 @@ theorem all_other : ∀ (b : CT) (t : List CKind), firstReal b = some .other →
     simp only [firstReal] at h
     simp [kinds, Leaf.kinds, CKind.isCommentOrCtl, all_other rest t h]
   | .leaf (.stmt _ _ _) _, _, _ => by simp [kinds, Leaf.kinds, CKind.isCommentOrCtl]
-  | .leaf (.block _ _) _, _, _ => by simp [kinds, Leaf.kinds, CKind.isCommentOrCtl]
+  | .leaf (.block _ _ _) _, _, _ => by simp [kinds, Leaf.kinds, CKind.isCommentOrCtl]
   | .leaf (.silent _ _) _, _, _ => by simp [kinds, Leaf.kinds, CKind.isCommentOrCtl]
   | .ctl _ _ _ _, _, h => by simp [firstReal] at h
 
@@ -80,7 +80,7 @@ theorem firstReal_cases : ∀ b : CT,
   | .nil => .inl rfl
   | .leaf .comment rest => by simpa [firstReal] using firstReal_cases rest
   | .leaf (.stmt _ _ _) _ => .inr (.inl rfl)
-  | .leaf (.block _ _) _ => .inr (.inl rfl)
+  | .leaf (.block _ _ _) _ => .inr (.inl rfl)
   | .leaf (.silent _ _) _ => .inr (.inl rfl)
   | .ctl hdr _ _ _ => .inr (.inr ⟨hdr.kw, rfl⟩)
 
@@ -150,7 +150,8 @@ theorem structOf_ne_nil (el : Bool) : ∀ b : CT, noSilent b = true → firstRea
     simp only [firstReal] at h
     simpa [structOf, Leaf.prog] using structOf_ne_nil el rest hn.2 h
   | .leaf (.stmt _ _ _) _, _, _ => by simp [structOf, Leaf.prog]
-  | .leaf (.block _ _) _, _, _ => by simp [structOf, Leaf.prog]
+  | .leaf (.block _ _ none) _, _, _ => by simp [structOf, Leaf.prog]
+  | .leaf (.block _ _ (some _)) _, _, _ => by simp [structOf, Leaf.prog]
   | .leaf (.silent _ _) _, hn, _ => by simp [noSilent, Leaf.writes] at hn
   | .ctl _ _ _ _, _, h => by simp [firstReal] at h
 
@@ -186,7 +187,11 @@ theorem suites_structOf (el : Bool) : ∀ t : CT, noSilent t = true → forOk el
     simp only [noSilent, Bool.and_eq_true] at hn
     simp only [forOk] at hf
     have := suites_structOf el rest hn.2 hf
-    cases k <;> simpa [structOf, Leaf.prog, suitesNonEmpty] using this
+    cases k with
+    | block t lr st => cases st <;> simpa [structOf, Leaf.prog, suitesNonEmpty] using this
+    | comment => simpa [structOf, Leaf.prog, suitesNonEmpty] using this
+    | stmt _ _ _ => simpa [structOf, Leaf.prog, suitesNonEmpty] using this
+    | silent _ _ => simpa [structOf, Leaf.prog, suitesNonEmpty] using this
   | .ctl hdr body terns rest, hn, hf => by
     simp only [noSilent, Bool.and_eq_true] at hn
     simp only [forOk, Bool.and_eq_true, Bool.or_eq_true, Bool.not_eq_true'] at hf
@@ -251,7 +256,7 @@ theorem startsCont_leaf_prog (k : Leaf) (p : Prog) (h : startsCont p = false) : 
   | comment => exact h
   | silent _ _ => exact h
   | stmt _ _ _ => rfl
-  | block _ _ => rfl
+  | block _ _ st => cases st <;> rfl
 
 theorem startsCont_structOf (strict el : Bool) : ∀ t : CT, ctOk strict el t = true → startsCont (structOf el t) = false
   | .nil, _ => rfl
@@ -281,7 +286,11 @@ theorem emit_passProg (b : Bool) (p : Prog) : emit (passProg b p) = passEv b ++ 
   cases b <;> simp [passProg, passEv, emit]
 
 theorem emit_leaf_prog (k : Leaf) (p : Prog) : emit (k.prog p) = k.emit ++ emit p := by
-  cases k <;> simp [Leaf.prog, Leaf.emit, emit]
+  cases k with
+  | block t lr st => cases st <;> simp [Leaf.prog, Leaf.emit, emit]
+  | comment => simp [Leaf.prog, Leaf.emit]
+  | stmt _ _ _ => simp [Leaf.prog, Leaf.emit, emit]
+  | silent _ _ => simp [Leaf.prog, Leaf.emit]
 
 theorem finally_isCont : isCont finallyLine = true := by decide
 theorem try_notCont : isCont tryLine = false := by decide
@@ -343,6 +352,41 @@ theorem emitAfter_structTerns (strict el : Bool) (kw : Str) : ∀ (ts : Terns) (
     simp
 end
 
+theorem lskip_cons_of_not_space {c : Char} {r : Str} (h : isSpace c = false) : lskip (c :: r) = c :: r := by
+  simp [lskip, List.dropWhile, h]
+
+/-- a line whose first character is no whitespace, no `#` and not the first letter of any keyword of the
+    printer's tables is a simple line: whatever follows, it is never taken for a compound statement and never
+    unindents -/
+theorem lineOk_of_head (c : Char) (r : Str) (hs : isSpace c = false)
+    (h : c ≠ '#' ∧ c ≠ 'i' ∧ c ≠ 't' ∧ c ≠ 'e' ∧ c ≠ 'w' ∧ c ≠ 'f' ∧ c ≠ 'd' ∧ c ≠ 'c') : LineOk (c :: r) = true := by
+  obtain ⟨h0, h1, h2, h3, h4, h5, h6, h7⟩ := h
+  have b0 : (c == '#') = false := by simpa using h0
+  have b1 : (c == 'i') = false := by simpa using h1
+  have b2 : (c == 't') = false := by simpa using h2
+  have b3 : (c == 'e') = false := by simpa using h3
+  have b4 : (c == 'w') = false := by simpa using h4
+  have b5 : (c == 'f') = false := by simpa using h5
+  have b6 : (c == 'd') = false := by simpa using h6
+  have b7 : (c == 'c') = false := by simpa using h7
+  have hc : reCompound (c :: r) = none := by
+    simp [reCompound, lskip_cons_of_not_space hs, firstKw, compoundKws, startsWith, b1, b2, b3, b4, b5]
+  have hk : reIndentKeyword (c :: r) = false := by
+    simp [reIndentKeyword, lskip_cons_of_not_space hs, firstKw, indentKws, startsWith, b3, b5, b6, b7]
+  have hu : reUnindentor (c :: r) = false := by
+    simp [reUnindentor, lskip_cons_of_not_space hs, firstKw, unindentKws, startsWith, b3, b5]
+  have ht : hasText (some (c :: r)) = true := by
+    simp [hasText, reSpaceComment, reSpace, lskip_cons_of_not_space hs, hs, h0]
+  have ho : opens (c :: r) = none := by
+    unfold opens; split <;> simp [hc, hk]
+  simp [LineOk, ht, hu, ho]
+
+/-- a line that starts with `__M_…` (every `__M_writer(…)` call, whatever its argument text – repr of template
+    text, a user expression with colons, comments, several physical lines) is never taken for a compound
+    statement, never unindents -/
+theorem mline_ok (rest : Str) : LineOk ('_' :: '_' :: 'M' :: '_' :: rest) = true :=
+  lineOk_of_head '_' _ (by decide) (by decide)
+
 /-! ## … and that program is `good` -/
 
 theorem good_prev {p : Prog} (a b : Option Bool) (h : startsCont p = false) : good a p = good b p := by
@@ -362,7 +406,16 @@ theorem good_passProg {b : Bool} {p : Prog} (h : good none p = true) : good none
 theorem good_leaf_prog (k : Leaf) (p : Prog) (hk : k.ok = true) (h : good none p = true) : good none (k.prog p) = true := by
   cases k with
   | stmt l _ _ => simpa [Leaf.prog, good, h, Leaf.ok] using hk
-  | block t _ => simp [Leaf.prog, good, h]
+  | block t _ st =>
+    cases st with
+    | none => simp [Leaf.prog, good, h]
+    | some names =>
+      have h1 : LineOk storeLine1 = true := by decide
+      have h2 : LineOk (storeLine2 names) = true := by
+        have e : storeLine2 names = '_' :: '_' :: 'M' :: '_' :: ("locals.update(__M_dict_builtin([(__M_key, __M_locals_builtin_stored[__M_key]) for __M_key in [".toList ++ names ++
+          "] if __M_key in __M_locals_builtin_stored]))".toList) := rfl
+        rw [e]; exact mline_ok _
+      simp [Leaf.prog, good, h, h1, h2]
   | comment => simpa [Leaf.prog] using h
   | silent _ _ => simpa [Leaf.prog] using h
 
@@ -432,9 +485,6 @@ end
 
 /-! ## lines the generator itself writes -/
 
-theorem lskip_cons_of_not_space {c : Char} {r : Str} (h : isSpace c = false) : lskip (c :: r) = c :: r := by
-  simp [lskip, List.dropWhile, h]
-
 theorem reIndent_snoc_colon : ∀ x : Str, reIndent (x ++ [':']) = true
   | [] => by decide
   | c :: cs => by simp [reIndent, reIndent_snoc_colon cs]
@@ -465,43 +515,11 @@ theorem forLoopLine_ok (target : Str) :
   unfold HeaderOk opens
   rw [ht, hm, hi, hc]; rfl
 
-/-- a line whose first character is no whitespace, no `#` and not the first letter of any keyword of the
-    printer's tables is a simple line: whatever follows, it is never taken for a compound statement and never
-    unindents -/
-theorem lineOk_of_head (c : Char) (r : Str) (hs : isSpace c = false)
-    (h : c ≠ '#' ∧ c ≠ 'i' ∧ c ≠ 't' ∧ c ≠ 'e' ∧ c ≠ 'w' ∧ c ≠ 'f' ∧ c ≠ 'd' ∧ c ≠ 'c') : LineOk (c :: r) = true := by
-  obtain ⟨h0, h1, h2, h3, h4, h5, h6, h7⟩ := h
-  have b0 : (c == '#') = false := by simpa using h0
-  have b1 : (c == 'i') = false := by simpa using h1
-  have b2 : (c == 't') = false := by simpa using h2
-  have b3 : (c == 'e') = false := by simpa using h3
-  have b4 : (c == 'w') = false := by simpa using h4
-  have b5 : (c == 'f') = false := by simpa using h5
-  have b6 : (c == 'd') = false := by simpa using h6
-  have b7 : (c == 'c') = false := by simpa using h7
-  have hc : reCompound (c :: r) = none := by
-    simp [reCompound, lskip_cons_of_not_space hs, firstKw, compoundKws, startsWith, b1, b2, b3, b4, b5]
-  have hk : reIndentKeyword (c :: r) = false := by
-    simp [reIndentKeyword, lskip_cons_of_not_space hs, firstKw, indentKws, startsWith, b3, b5, b6, b7]
-  have hu : reUnindentor (c :: r) = false := by
-    simp [reUnindentor, lskip_cons_of_not_space hs, firstKw, unindentKws, startsWith, b3, b5]
-  have ht : hasText (some (c :: r)) = true := by
-    simp [hasText, reSpaceComment, reSpace, lskip_cons_of_not_space hs, hs, h0]
-  have ho : opens (c :: r) = none := by
-    unfold opens; split <;> simp [hc, hk]
-  simp [LineOk, ht, hu, ho]
-
 /-- `loop = __M_loop._enter(<iterable>)` is a simple line, whatever the iterable text -/
 theorem enterLine_ok (iter : Str) : LineOk (enterLine iter) = true := by
   have e : enterLine iter = 'l' :: ("oop = __M_loop._enter(".toList ++ iter ++ [')']) := rfl
   rw [e]
   exact lineOk_of_head 'l' _ (by decide) (by decide)
-
-/-- a line that starts with `__M_…` (every `__M_writer(…)` call, whatever its argument text – repr of template
-    text, a user expression with colons, comments, several physical lines) is never taken for a compound
-    statement, never unindents -/
-theorem mline_ok (rest : Str) : LineOk ('_' :: '_' :: 'M' :: '_' :: rest) = true :=
-  lineOk_of_head '_' _ (by decide) (by decide)
 
 /-- no colon, no `#`: `_re_indent` cannot match -/
 theorem reIndent_no_colon : ∀ s : Str, s.contains ':' = false → reIndent s = false
